@@ -158,6 +158,7 @@ type tcase struct {
 	bodies   []*string // nil: empty body
 	trees    vc.L
 	stream   bool
+	must     vc.L // ( field-path text ): planted unbound string parameters
 }
 
 var transcoder = transcoding.NewStandardTranscoder(transcoding.StandardTranscoderOpts{})
@@ -272,7 +273,9 @@ func (c *tcase) input() vc.Val {
 	for _, e := range c.query {
 		qs = append(qs, vc.L{e.k, vc.Strs(e.vs)})
 	}
-	return vc.L{c.schema.Val(), c.bodyPath, ps, qs, c.trees}
+	must := vc.L{}
+	must = append(must, c.must...)
+	return vc.L{c.schema.Val(), c.bodyPath, ps, qs, c.trees, must}
 }
 
 // ---- JSON trees ----
@@ -683,6 +686,82 @@ func genCase(r *vc.Rand, s *Schema, root protoreflect.MessageDescriptor, types *
 			qUsed[key] = true
 			vs = []string{r.Pick([]string{"1", "zz", "true"})}
 			c.query = append(c.query, kvs{key, vs, strings.Split(key, ".")})
+			continue
+		case x < 18:
+			// an UNBOUND sibling whose name merely starts with the name of a bound field (n / n2, s / snake_case_name, opt / opts,
+			// b / by ...): it is a different field and must be populated from the query
+			base := c.bodyPath
+			if len(c.params) > 0 && (base == "" || base == "*" || r.Bool()) {
+				base = c.params[r.Intn(len(c.params))][0]
+			}
+			if base == "" || base == "*" {
+				continue
+			}
+			el := strings.Split(base, ".")
+			mi, okp := 0, true
+			for _, e := range el[:len(el)-1] {
+				found := false
+				for _, f := range s.Msgs[mi].Fields {
+					if f.Name == e && f.Kind == kMsg && f.Card == 0 {
+						mi, found = f.Msg, true
+					}
+				}
+				okp = okp && found
+			}
+			if !okp {
+				continue
+			}
+			var sibs []Field
+			for _, f := range s.Msgs[mi].Fields {
+				if f.Name != el[len(el)-1] && strings.HasPrefix(f.Name, el[len(el)-1]) {
+					sibs = append(sibs, f)
+				}
+			}
+			if len(sibs) == 0 {
+				continue
+			}
+			f := sibs[r.Intn(len(sibs))]
+			norm := append(append([]string{}, el[:len(el)-1]...), f.Name)
+			if f.Kind == kMsg && f.Card == 0 && s.Msgs[f.Msg].WKT == 0 {
+				g := s.Msgs[f.Msg].Fields[r.Intn(len(s.Msgs[f.Msg].Fields))]
+				norm, f = append(norm, g.Name), g
+			}
+			if f.Kind == kMsg && s.Msgs[f.Msg].WKT == 0 {
+				continue
+			}
+			key = strings.Join(norm, ".")
+			pth := fpath{elems: norm, norm: norm, final: f, ok: true}
+			okey := oneofKey(pth)
+			conflict := qUsed[key] || (okey != "" && (qOneof[okey] || usedOneof[okey]))
+			for q := range qUsed {
+				if strings.HasPrefix(q+".", key+".") || strings.HasPrefix(key+".", q+".") {
+					conflict = true
+				}
+			}
+			for q := range usedNorm {
+				if strings.HasPrefix(q+".", key+".") || strings.HasPrefix(key+".", q+".") {
+					conflict = true
+				}
+			}
+			if bp := c.bodyPath; bp != "" && (strings.HasPrefix(bp+".", key+".") || strings.HasPrefix(key+".", bp+".")) {
+				conflict = true // bound by the body after all
+			}
+			if conflict {
+				continue
+			}
+			qUsed[key] = true
+			if okey != "" {
+				qOneof[okey] = true
+			}
+			if f.Card == 2 {
+				key += "[" + mapKeyText(r, f.KeyKind) + "]"
+			}
+			vs = []string{textFor(r, s, f)}
+			c.query = append(c.query, kvs{key, vs, norm})
+			if f.Kind == kString && f.Card == 0 && f.Oneof == 0 && c.bodyPath != "*" {
+				// an unbound single string field outside any oneof: the value must arrive verbatim
+				c.must = append(c.must, vc.L{vc.Strs(norm), vs[0]})
+			}
 			continue
 		default:
 			key = r.Pick([]string{"unknown", "n.unknown", "a[b][c]", "x[", "]", "[k]", "", "n..x", "i32.x", "ri[0]", "unknown[k]"})
